@@ -519,7 +519,12 @@ class Proc(object):
                             args.append(dflt[0] if isinstance(dflt, tuple) else dflt)      # the parameter's default value, as declared (checked against the source in gen_logic)
                             continue
                         raise Untranslatable("arity of %s" % fname)
-                    args.append(self.coerce(*self.expr(actual.pop(0), env), t))
+                    a0 = actual.pop(0)
+                    if isinstance(a0, ast.Tuple) and isinstance(t, tuple) and t[0] == "List":
+                        # a literal tuple handed to a function that iterates over it: the list of its items
+                        args.append("[" + ", ".join(self.coerce(*self.expr(x, env), t[1]) for x in a0.elts) + "]")
+                    else:
+                        args.append(self.coerce(*self.expr(a0, env), t))
             if actual:
                 raise Untranslatable("arity of %s" % fname)
             for n, _ in p.get("implicit", []):
@@ -1450,7 +1455,7 @@ class Proc(object):
             raise Untranslatable("signature is (%s), expected (%s)" % (", ".join(args), ", ".join(n for n, _ in declared)))
         sig = "".join(" (%s : %s)" % (n, lty(t)) for n, t in self.fixed)
         for n, t in declared:
-            ln = n.replace("self.", "self_")
+            ln = n.replace(".", "_")
             if ln in LEAN_KEYWORDS:
                 ln = ln + "_"
             env.vars[n] = (ln, t)
@@ -1509,6 +1514,7 @@ CP_REC = {"CpRec": {"tabulation": ("tabulation", ("Rec", "TabSec"))},
           "TabSec": {"cutoff": ("cutoff", ("Opt", "Rat")), "nr": ("nr", ("Opt", "Int")), "cutoff_rho": ("cutoff_rho", ("Opt", "Rat")), "nrho": ("nrho", ("Opt", "Int"))},
           "RCut": {"cutoff": ("cutoff", "Rat"), "nr": ("nr", "Int")},
           "RRhoCut": {"cutoff": ("cutoff", "Rat"), "nr": ("nr", "Int"), "cutoff_rho": ("cutoff_rho", "Rat"), "nrho": ("nrho", "Int")}}
+ENT_REC = {"PairEnt": {"species": ("species", ("List", "Str"))}, "ElEnt": {"species": ("species", "Str")}}
 CFG_REC = {"CfgRec": {}}
 CFG_METHODS = {("CfgRec", "has_section"): ("cfgHas", ["Str"], "Bool"), ("CfgRec", "__getitem__"): ("cfgKeys", ["Str"], ("List", "Str")),
                ("CfgRec", "sections"): ("cfgSections", [], ("List", "Str"))}
@@ -1673,6 +1679,18 @@ PROCS = [
          params=[("config_parser", "Unit"), ("exclude", ("Opt", ("List", "Str"))), ("include", ("Opt", ("List", "Str")))],
          ret=("Except", "FilterErr", ("Prod", ("List", "Str"), "Bool")), raises=[("Both exclude and include", "FilterErr.bothGiven")],
          skip_calls=["ObjectProxy.__init__"], attr_results=["self._self_species_list", "self._self_exclude_flag"]),
+    dict(name="filter_pair", file="config/_filtered_config_parser.py", func="FilteredConfigParser.pair",
+         params=[("self._self_species_list", ("List", "Str")), ("self._self_exclude_flag", "Bool"), ("self.__wrapped__.pair", ("List", ("Rec", "PairEnt")))],
+         ret=("List", ("Rec", "PairEnt")), records=ENT_REC),
+    dict(name="filter_eam_embed", file="config/_filtered_config_parser.py", func="FilteredConfigParser.eam_embed",
+         params=[("self._self_species_list", ("List", "Str")), ("self._self_exclude_flag", "Bool"), ("self.__wrapped__.eam_embed", ("List", ("Rec", "ElEnt")))],
+         ret=("List", ("Rec", "ElEnt")), records=ENT_REC),
+    dict(name="filter_eam_density", file="config/_filtered_config_parser.py", func="FilteredConfigParser.eam_density",
+         params=[("self._self_species_list", ("List", "Str")), ("self._self_exclude_flag", "Bool"), ("self.__wrapped__.eam_density", ("List", ("Rec", "ElEnt")))],
+         ret=("List", ("Rec", "ElEnt")), records=ENT_REC),
+    dict(name="filter_eam_density_fs", file="config/_filtered_config_parser.py", func="FilteredConfigParser.eam_density_fs",
+         params=[("self._self_species_list", ("List", "Str")), ("self._self_exclude_flag", "Bool"), ("self.__wrapped__.eam_density_fs", ("List", ("Rec", "PairEnt")))],
+         ret=("List", ("Rec", "PairEnt")), records=ENT_REC),
     # ---- C16 / C18: [Table-Form] data
     dict(name="parse_data", file="config/_config_parser.py", func="_TableFormSection._parse_data",
          params=[("section_name", "Str"), ("section", ("List", "Str"))], ret=("Except", "TableErr", "Str"),
@@ -1842,6 +1860,17 @@ structure EamRec where
   dens : FnRec
   densFS : List (String × FnRec)
 deriving Repr, Inhabited
+
+/-- an entry of `[Pair]` / `[EAM-Density]` (Finnis-Sinclair) as the species filter sees it: the tuple of species it mentions, and which entry it is -/
+structure PairEnt where
+  species : List String
+  id : Nat
+deriving Repr, DecidableEq
+/-- an entry of `[EAM-Embed]` / `[EAM-Density]`: one species -/
+structure ElEnt where
+  species : String
+  id : Nat
+deriving Repr, DecidableEq
 
 /-- the `[Tabulation]` section as the factories read it (`cp.tabulation.cutoff` …: what `_TabulationCutoff` left, `None` when the model does not fix it) -/
 structure TabSec where
